@@ -467,7 +467,7 @@ theorem month_forwarding_ok :
     Extracted.MONTH_FROM_U64_VIA = 0 ∧ Extracted.MONTH_FROM_I64_VIA = 0 := by decide
 
 /-- which `FromPrimitive` methods the impls write themselves; every other method is the num_traits
-default that `M.FromPrimitive` models -/
+default that `M.Conv.FromPrimitive` models -/
 theorem fromprimitive_overrides_ok :
     Extracted.WEEKDAY_FROMPRIMITIVE_OVERRIDES = ["from_i64", "from_u64"] ∧
     Extracted.MONTH_FROMPRIMITIVE_OVERRIDES = ["from_u64", "from_i64", "from_u32"] := ⟨rfl, rfl⟩
@@ -845,7 +845,7 @@ example : setDisplay 81 = asciiBytes "[Mon, Fri, Sun]" ∧ setDisplay 0 = asciiB
 
 /-- without flags the bare name; otherwise the name cut to the precision, filled up to the width on
 the side(s) the alignment says (centre: the odd one goes to the right) -/
-theorem weekday_display_fmt_spec (w : Weekday) (width prec : Option Nat) (align : Align) (fill : Nat) :
+theorem weekday_display_fmt_spec (w : Weekday) (width prec : Option Nat) (align : WdFmt.Align) (fill : Nat) :
     w.display_fmt none none align fill = w.display ∧
     ∃ pre post, w.display_fmt width prec align fill =
         List.replicate pre fill ++ w.display.take (prec.getD 3) ++ List.replicate post fill ∧
@@ -854,13 +854,13 @@ theorem weekday_display_fmt_spec (w : Weekday) (width prec : Option Nat) (align 
       (align = .center → pre ≤ post ∧ post ≤ pre + 1) := by
   refine ⟨rfl, ?_⟩
   have hl : w.display.length = 3 := by cases w <;> rfl
-  have ht : fmtCut w.display prec = w.display.take (prec.getD 3) := by
+  have ht : WdFmt.fmtCut w.display prec = w.display.take (prec.getD 3) := by
     cases prec with
     | none => show w.display = w.display.take 3; rw [← hl, List.take_length]
     | some p => rfl
   have htl : (w.display.take (prec.getD 3)).length = min 3 (prec.getD 3) := by
     rw [List.length_take, hl, Nat.min_comm]
-  unfold Weekday.display_fmt fmtPad
+  unfold Weekday.display_fmt WdFmt.fmtPad
   rw [ht]
   generalize w.display.take (prec.getD 3) = t at htl
   have triv : t = List.replicate 0 fill ++ t ++ List.replicate 0 fill := by simp
